@@ -7,11 +7,26 @@ set_option linter.unusedVariables false
 set_option linter.unusedSimpArgs false
 namespace CV.Chain
 
-/-- the two entry sets answer every lookup alike -/
+/-- two resolver entries that answer every question the compiler asks alike (their `Subsets` and
+    `Failover` Go maps may be listed in different orders) -/
+structure REqv (r r' : Resolver) : Prop where
+  ds    : r'.defaultSubset = r.defaultSubset
+  subs  : ∀ k, alook k r'.subsets = alook k r.subsets
+  subsE : r'.subsets.isEmpty = r.subsets.isEmpty
+  rd    : r'.redirect = r.redirect
+  fo    : ∀ k, alook k r'.failover = alook k r.failover
+  foE   : r'.failover.isEmpty = r.failover.isEmpty
+  ct    : r'.ct = r.ct
+  rt    : r'.rt = r.rt
+  lb    : r'.lb = r.lb
+
+theorem REqv.refl (r : Resolver) : REqv r r := ⟨rfl, fun _ => rfl, rfl, rfl, fun _ => rfl, rfl, rfl, rfl, rfl⟩
+
+/-- the two entry sets answer every lookup alike (resolvers up to `REqv`) -/
 structure LookEq (es es' : Entries) : Prop where
   routers   : ∀ k, alook k es.routers = alook k es'.routers
   splitters : ∀ k, alook k es.splitters = alook k es'.splitters
-  resolvers : ∀ k, alook k es.resolvers = alook k es'.resolvers
+  resolvers : ∀ k, REqv (getResolver es k) (getResolver es' k)
   services  : ∀ k, alook k es.services = alook k es'.services
   proxy     : es.proxy = es'.proxy
 
@@ -21,21 +36,55 @@ theorem recordServiceProtocol_congr (h : LookEq es es') (cur svc : String) :
     recordServiceProtocol es' cur svc = recordServiceProtocol es cur svc := by
   unfold recordServiceProtocol; rw [h.services, h.proxy]
 
-theorem getResolver_congr (h : LookEq es es') (svc : String) : getResolver es' svc = getResolver es svc := by
-  unfold getResolver; rw [h.resolvers]
+theorem decorate_congr (h : LookEq es es') (cx : Ctx) (st : St) (t : Target) {r r' : Resolver} (hr : REqv r r') :
+    decorate es' cx st t r' = decorate es cx st t r := by
+  unfold decorate; rw [h.services, h.proxy, hr.ct, hr.subs]
 
-theorem decorate_congr (h : LookEq es es') (cx : Ctx) (st : St) (t : Target) (r : Resolver) :
-    decorate es' cx st t r = decorate es cx st t r := by
-  unfold decorate; rw [h.services, h.proxy]
+theorem finishResolve_congr (h : LookEq es es') (cx : Ctx) (st : St) (t : Target) {r r' : Resolver} (hr : REqv r r') :
+    finishResolve es' cx st t r' = finishResolve es cx st t r := by
+  unfold finishResolve Resolver.subsetExists Resolver.isDefault
+  rw [decorate_congr h cx st t hr, hr.subs, hr.rd, hr.subsE, hr.foE, hr.rt, hr.lb, hr.ds, hr.ct]
 
-theorem finishResolve_congr (h : LookEq es es') (cx : Ctx) (st : St) (t : Target) (r : Resolver) :
-    finishResolve es' cx st t r = finishResolve es cx st t r := by
-  unfold finishResolve; rw [decorate_congr h]
+theorem redirectStep_congr (cx : Ctx) (st : St) (t : Target) {r r' : Resolver} (hr : REqv r r') :
+    redirectStep cx st t r' = redirectStep cx st t r := by
+  unfold redirectStep; rw [hr.rd]
+
+theorem subsetStep_congr (cx : Ctx) (st : St) (t : Target) {r r' : Resolver} (hr : REqv r r') :
+    subsetStep cx st t r' = subsetStep cx st t r := by
+  unfold subsetStep; rw [hr.ds]
+
+theorem failoverOpts_congr (t : Target) {r r' : Resolver} (hr : REqv r r') : failoverOpts r' t = failoverOpts r t := by
+  unfold failoverOpts; rw [hr.fo, hr.fo]
+
+/-- forget which resolver entry a fresh outcome carries -/
+def LoopOut.erase : LoopOut → LoopOut
+  | .memo i l => .memo i l
+  | .fresh t _ => .fresh t {}
+
+def eraseR (x : Except Err (St × LoopOut)) : Except Err (St × LoopOut) :=
+  match x with
+  | .error e => .error e
+  | .ok (st, o) => .ok (st, o.erase)
+
+/-- a fresh outcome carries the resolver of the final target's service -/
+theorem resolveLoop_fresh_is (es : Entries) (cx : Ctx) (st0 : St) (t0 : Target) (st : St) (hist : List Target) (t : Target)
+    (hst : LoadedIn (mkVals es cx st0 t0) st) (ht : InU (mkVals es cx st0 t0) t) (st' : St) (t' : Target) (r : Resolver)
+    (h : resolveLoop es cx st0 t0 st hist t hst ht = .ok (st', .fresh t' r)) : r = getResolver es t'.svc := by
+  fun_induction resolveLoop es cx st0 t0 st hist t hst ht generalizing st' with
+  | case1 st hist t hst ht lb hm => cases h
+  | case2 st hist t hst ht hm e he => cases h
+  | case3 st hist t hst ht hm p hp hh => cases h
+  | case4 st hist t hst ht hm p hp hh st2 t2 h1 hi ih => exact ih st' h
+  | case5 st hist t hst ht hm p hp hh st2 h1 hi st3 t3 h2 hj ih => exact ih st' h
+  | case6 st hist t hst ht hm p hp hh st2 h1 hi h2 =>
+    simp only [Except.ok.injEq, Prod.mk.injEq, LoopOut.fresh.injEq] at h
+    obtain ⟨_, rfl, rfl⟩ := h
+    rfl
 
 theorem resolveLoop_congr (h : LookEq es es') (cx : Ctx) (st0 : St) (t0 : Target) (st : St) (hist : List Target) (t : Target)
     (hst : LoadedIn (mkVals es cx st0 t0) st) (ht : InU (mkVals es cx st0 t0) t) :
     ∀ (st0' : St) (t0' : Target) (hst' : LoadedIn (mkVals es' cx st0' t0') st) (ht' : InU (mkVals es' cx st0' t0') t),
-      resolveLoop es' cx st0' t0' st hist t hst' ht' = resolveLoop es cx st0 t0 st hist t hst ht := by
+      eraseR (resolveLoop es' cx st0' t0' st hist t hst' ht') = eraseR (resolveLoop es cx st0 t0 st hist t hst ht) := by
   fun_induction resolveLoop es cx st0 t0 st hist t hst ht with
   | case1 st hist t hst ht lb hm =>
     intro st0' t0' hst' ht'
@@ -54,82 +103,175 @@ theorem resolveLoop_congr (h : LookEq es es') (cx : Ctx) (st0 : St) (t0 : Target
     intro st0' t0' hst' ht'
     rw [resolveLoop]
     simp only [dite_eq_ite] at hp
-    simp only [hm, recordServiceProtocol_congr h, hp, getResolver_congr h]
+    simp only [hm, recordServiceProtocol_congr h, hp]
     rw [dif_neg hh]
     split
     · rename_i st2' t2' h1'
-      rw [getResolver_congr h, h1] at h1'
+      rw [redirectStep_congr cx _ t (h.resolvers t.svc), h1] at h1'
       simp only [Prod.mk.injEq, Option.some.injEq] at h1'
       obtain ⟨rfl, rfl⟩ := h1'
       exact ih _ _ _ _
     · rename_i st2' h1'
-      rw [getResolver_congr h, h1] at h1'
+      rw [redirectStep_congr cx _ t (h.resolvers t.svc), h1] at h1'
       simp at h1'
   | case5 st hist t hst ht hm p hp hh st2 h1 hi st3 t3 h2 hj ih =>
     intro st0' t0' hst' ht'
     rw [resolveLoop]
     simp only [dite_eq_ite] at hp
-    simp only [hm, recordServiceProtocol_congr h, hp, getResolver_congr h]
+    simp only [hm, recordServiceProtocol_congr h, hp]
     rw [dif_neg hh]
     split
     · rename_i st2' t2' h1'
-      rw [getResolver_congr h, h1] at h1'
+      rw [redirectStep_congr cx _ t (h.resolvers t.svc), h1] at h1'
       simp at h1'
     · rename_i st2' h1'
-      rw [getResolver_congr h, h1] at h1'
+      rw [redirectStep_congr cx _ t (h.resolvers t.svc), h1] at h1'
       simp only [Prod.mk.injEq, and_true] at h1'
       subst h1'
       split
       · rename_i st3' t3' h2'
-        rw [getResolver_congr h, h2] at h2'
+        rw [subsetStep_congr cx _ t (h.resolvers t.svc), h2] at h2'
         simp only [Option.some.injEq, Prod.mk.injEq] at h2'
         obtain ⟨rfl, rfl⟩ := h2'
         exact ih _ _ _ _
       · rename_i h2'
-        rw [getResolver_congr h, h2] at h2'; cases h2'
+        rw [subsetStep_congr cx _ t (h.resolvers t.svc), h2] at h2'; cases h2'
   | case6 st hist t hst ht hm p hp hh st2 h1 hi h2 =>
     intro st0' t0' hst' ht'
     rw [resolveLoop]
     simp only [dite_eq_ite] at hp
-    simp only [hm, recordServiceProtocol_congr h, hp, getResolver_congr h]
+    simp only [hm, recordServiceProtocol_congr h, hp]
     rw [dif_neg hh]
     split
     · rename_i st2' t2' h1'
-      rw [getResolver_congr h, h1] at h1'
+      rw [redirectStep_congr cx _ t (h.resolvers t.svc), h1] at h1'
       simp at h1'
     · rename_i st2' h1'
-      rw [getResolver_congr h, h1] at h1'
+      rw [redirectStep_congr cx _ t (h.resolvers t.svc), h1] at h1'
       simp only [Prod.mk.injEq, and_true] at h1'
       subst h1'
       split
       · rename_i st3' t3' h2'
-        rw [getResolver_congr h, h2] at h2'; cases h2'
+        rw [subsetStep_congr cx _ t (h.resolvers t.svc), h2] at h2'; cases h2'
       · rfl
 
+/-- forget the resolver entry in `resolveCore`'s answer -/
+def eraseC (x : Except Err (St × RNode × Option (Target × Resolver × Node))) :
+    Except Err (St × RNode × Option (Target × Node)) :=
+  match x with
+  | .error e => .error e
+  | .ok (st, rn, none) => .ok (st, rn, none)
+  | .ok (st, rn, some (t, _, n)) => .ok (st, rn, some (t, n))
+
 theorem resolveCore_congr (h : LookEq es es') (cx : Ctx) (st : St) (t : Target) :
-    resolveCore es' cx st t = resolveCore es cx st t := by
+    eraseC (resolveCore es' cx st t) = eraseC (resolveCore es cx st t) ∧
+    (∀ st1 rn t1 r1 n1 st2 rn2 t2 r2 n2, resolveCore es cx st t = .ok (st1, rn, some (t1, r1, n1)) →
+       resolveCore es' cx st t = .ok (st2, rn2, some (t2, r2, n2)) → REqv r1 r2) := by
+  have E := resolveLoop_congr h cx st t st [] t (vals_loaded es cx st t) (vals_t es cx st t) st t
+    (vals_loaded es' cx st t) (vals_t es' cx st t)
   unfold resolveCore
-  rw [resolveLoop_congr h cx st t st [] t (vals_loaded es cx st t) (vals_t es cx st t) st t]
-  simp only [finishResolve_congr h]
+  cases hL : resolveLoop es cx st t st [] t (vals_loaded es cx st t) (vals_t es cx st t) with
+  | error e =>
+    cases hL' : resolveLoop es' cx st t st [] t (vals_loaded es' cx st t) (vals_t es' cx st t) with
+    | error e' =>
+      rw [hL, hL'] at E; simp only [eraseR, Except.error.injEq] at E; subst E
+      exact ⟨rfl, fun _ _ _ _ _ _ _ _ _ _ h1 => by cases h1⟩
+    | ok v => obtain ⟨s, o⟩ := v; rw [hL, hL'] at E; simp [eraseR] at E
+  | ok v =>
+    obtain ⟨s1, o1⟩ := v
+    cases hL' : resolveLoop es' cx st t st [] t (vals_loaded es' cx st t) (vals_t es' cx st t) with
+    | error e' => rw [hL, hL'] at E; simp [eraseR] at E
+    | ok v' =>
+      obtain ⟨s2, o2⟩ := v'
+      rw [hL, hL'] at E
+      simp only [eraseR, Except.ok.injEq, Prod.mk.injEq] at E
+      obtain ⟨rfl, ho⟩ := E
+      cases o1 with
+      | memo i l =>
+        cases o2 with
+        | memo i2 l2 =>
+          simp only [LoopOut.erase, LoopOut.memo.injEq] at ho
+          obtain ⟨rfl, rfl⟩ := ho
+          exact ⟨rfl, fun _ _ _ _ _ _ _ _ _ _ h1 => by cases h1⟩
+        | fresh t2 r2 => simp [LoopOut.erase] at ho
+      | fresh t1 r1 =>
+        cases o2 with
+        | memo i2 l2 => simp [LoopOut.erase] at ho
+        | fresh t2 r2 =>
+          simp only [LoopOut.erase, LoopOut.fresh.injEq, and_true] at ho
+          subst ho
+          have e1 := resolveLoop_fresh_is es cx st t st [] t _ _ _ _ _ hL
+          have e2 := resolveLoop_fresh_is es' cx st t st [] t _ _ _ _ _ hL'
+          have hr : REqv r1 r2 := by rw [e1, e2]; exact h.resolvers _
+          simp only
+          rw [finishResolve_congr h cx s2 t2 hr]
+          cases hf : finishResolve es cx s2 t2 r1 with
+          | error e => exact ⟨rfl, fun _ _ _ _ _ _ _ _ _ _ h1 => by cases h1⟩
+          | ok w =>
+            obtain ⟨s3, n3⟩ := w
+            simp only [eraseC, hr.lb]
+            refine ⟨trivial, ?_⟩
+            intro _ _ _ _ _ _ _ _ _ _ h1 h2
+            simp only [Except.ok.injEq, Prod.mk.injEq, Option.some.injEq] at h1 h2
+            obtain ⟨_, _, _, rfl, _⟩ := h1
+            obtain ⟨_, _, _, rfl, _⟩ := h2
+            exact hr
 
 theorem failoverResolve_congr (h : LookEq es es') (cx : Ctx) (st : St) (fts : List Target) :
     failoverResolve es' cx st fts = failoverResolve es cx st fts := by
   induction fts generalizing st with
   | nil => simp [failoverResolve]
   | cons ft rest ih =>
-    rw [failoverResolve, failoverResolve, resolveCore_congr h]
-    split
-    · rfl
-    · simp only [ih]
+    rw [failoverResolve, failoverResolve]
+    have E := (resolveCore_congr h cx st ft).1
+    cases h1 : resolveCore es cx st ft with
+    | error e =>
+      cases h2 : resolveCore es' cx st ft with
+      | error e' => rw [h1, h2] at E; simp only [eraseC, Except.error.injEq] at E; rw [E]
+      | ok v => obtain ⟨a, b, c⟩ := v; rw [h1, h2] at E; cases c <;> simp [eraseC] at E
+    | ok v =>
+      obtain ⟨a1, b1, c1⟩ := v
+      cases h2 : resolveCore es' cx st ft with
+      | error e' => rw [h1, h2] at E; cases c1 <;> simp [eraseC] at E
+      | ok v' =>
+        obtain ⟨a2, b2, c2⟩ := v'
+        rw [h1, h2] at E
+        have : a2 = a1 ∧ b2 = b1 := by
+          cases c1 <;> cases c2 <;> simp [eraseC] at E <;> first | exact ⟨E.1, E.2.1⟩ | exact ⟨E.1, E.2⟩
+        obtain ⟨rfl, rfl⟩ := this
+        simp only [ih]
 
 theorem resolverNode_congr (h : LookEq es es') (cx : Ctx) (st : St) (t : Target) :
     resolverNode es' cx st t = resolverNode es cx st t := by
   unfold resolverNode
-  rw [resolveCore_congr h]
-  split
-  · rfl
-  · rfl
-  · simp only [failoverResolve_congr h]
+  obtain ⟨E, hR⟩ := resolveCore_congr h cx st t
+  cases h1 : resolveCore es cx st t with
+  | error e =>
+    cases h2 : resolveCore es' cx st t with
+    | error e' => rw [h1, h2] at E; simp only [eraseC, Except.error.injEq] at E; rw [E]
+    | ok v => obtain ⟨a, b, c⟩ := v; rw [h1, h2] at E; cases c <;> simp [eraseC] at E
+  | ok v =>
+    obtain ⟨a1, b1, c1⟩ := v
+    cases h2 : resolveCore es' cx st t with
+    | error e' => rw [h1, h2] at E; cases c1 <;> simp [eraseC] at E
+    | ok v' =>
+      obtain ⟨a2, b2, c2⟩ := v'
+      rw [h1, h2] at E
+      cases c1 with
+      | none =>
+        cases c2 with
+        | none => simp only [eraseC, Except.ok.injEq, Prod.mk.injEq, and_true] at E; obtain ⟨rfl, rfl⟩ := E; rfl
+        | some x => obtain ⟨x1, x2, x3⟩ := x; simp [eraseC] at E
+      | some x =>
+        obtain ⟨t1, r1, n1⟩ := x
+        cases c2 with
+        | none => simp [eraseC] at E
+        | some y =>
+          obtain ⟨t2, r2, n2⟩ := y
+          have hr := hR _ _ _ _ _ _ _ _ _ _ h1 h2
+          simp only [eraseC, Except.ok.injEq, Prod.mk.injEq, Option.some.injEq] at E
+          obtain ⟨rfl, rfl, rfl, rfl⟩ := E
+          simp only [hr.lb, failoverOpts_congr _ hr, failoverResolve_congr h]
 
 /-- `splitterNode` unfolded once, with a plain (non-dependent) match on the lookup -/
 theorem splitterNode_eq (es : Entries) (cx : Ctx) (marks : List String) (st : St) (name : String) :
@@ -264,5 +406,55 @@ theorem alook_perm {α : Type} {l l' : List (String × α)} (hp : l.Perm l') (hn
   | trans h1 h2 ih1 ih2 =>
     have hn' : (akeys _).Nodup := (List.Perm.nodup_iff (List.Perm.map _ h1)).mp hn
     exact (ih1 hn).trans (ih2 hn')
+
+/-! ### the Go maps inside a resolver entry -/
+
+/-- `r'` is `r` with its `Subsets` and `Failover` maps listed in another order -/
+structure SamePerm (r r' : Resolver) : Prop where
+  ds   : r'.defaultSubset = r.defaultSubset
+  subs : r.subsets.Perm r'.subsets
+  subN : (akeys r.subsets).Nodup
+  rd   : r'.redirect = r.redirect
+  fo   : r.failover.Perm r'.failover
+  foN  : (akeys r.failover).Nodup
+  ct   : r'.ct = r.ct
+  rt   : r'.rt = r.rt
+  lb   : r'.lb = r.lb
+
+theorem isEmpty_perm {α : Type} {l l' : List α} (h : l.Perm l') : l'.isEmpty = l.isEmpty := by
+  have := h.length_eq
+  cases l <;> cases l' <;> simp_all
+
+theorem SamePerm.reqv {r r' : Resolver} (h : SamePerm r r') : REqv r r' :=
+  ⟨h.ds, fun k => (alook_perm h.subs h.subN k).symm, isEmpty_perm h.subs, h.rd,
+   fun k => (alook_perm h.fo h.foN k).symm, isEmpty_perm h.fo, h.ct, h.rt, h.lb⟩
+
+theorem alook_map_val {α β : Type} (f : String → α → β) (k : String) (l : List (String × α)) :
+    alook k (l.map fun kv => (kv.1, f kv.1 kv.2)) = (alook k l).map (f k) := by
+  induction l with
+  | nil => rfl
+  | cons x xs ih =>
+    obtain ⟨a, v⟩ := x
+    simp only [List.map_cons, alook]
+    split
+    · rename_i e; subst e; rfl
+    · exact ih
+
+/-- re-listing the inner maps of every resolver entry is invisible to every lookup -/
+theorem lookEq_inner (es : Entries) (f : String → Resolver → Resolver) (hf : ∀ k r, SamePerm r (f k r)) :
+    LookEq es { es with resolvers := es.resolvers.map fun kv => (kv.1, f kv.1 kv.2) } := by
+  refine ⟨fun _ => rfl, fun _ => rfl, ?_, fun _ => rfl, rfl⟩
+  intro k
+  unfold getResolver
+  simp only [alook_map_val]
+  cases alook k es.resolvers with
+  | none => exact REqv.refl _
+  | some r => exact (hf k r).reqv
+
+theorem lookEq_outer {es es' : Entries}
+    (hr : ∀ k, alook k es.routers = alook k es'.routers) (hs : ∀ k, alook k es.splitters = alook k es'.splitters)
+    (hv : ∀ k, alook k es.resolvers = alook k es'.resolvers) (hd : ∀ k, alook k es.services = alook k es'.services)
+    (hp : es.proxy = es'.proxy) : LookEq es es' :=
+  ⟨hr, hs, fun k => by unfold getResolver; rw [hv k]; exact REqv.refl _, hd, hp⟩
 
 end CV.Chain
